@@ -148,18 +148,7 @@ func (p *Packer) Pack(src string, w io.Writer) (*Meta, error) {
 	// A trailing separator would make Lstat look through a symlink, and we
 	// would end up walking the link instead of the directory it names.
 	if src != "" {
-		// Cleaning the path resolves ".." as text, which names another
-		// directory when the segment before it is a symlink. Such a path is
-		// first resolved the way the operating system reads it.
-		for _, seg := range strings.Split(filepath.ToSlash(src), "/") {
-			if seg == ".." {
-				if real, err := filepath.EvalSymlinks(src); err == nil {
-					src = real
-				}
-				break
-			}
-		}
-		src = filepath.Clean(src)
+		src = cleanSourcePath(src)
 	}
 
 	info, err := os.Lstat(src)
@@ -181,13 +170,13 @@ func (p *Packer) Pack(src string, w io.Writer) (*Meta, error) {
 			// link. Earlier versions read it relative to the working
 			// directory; that reading is kept only for links which do not
 			// resolve the proper way.
-			if proper := filepath.Join(filepath.Dir(src), target); pathExists(proper) {
+			if proper := filepath.Dir(src) + string(filepath.Separator) + target; pathExists(proper) {
 				target = proper
 			}
 		}
 		// Without a trailing separator or dot segments, so that Lstat sees the
 		// next link of a chain instead of looking through it.
-		src = filepath.Clean(target)
+		src = cleanSourcePath(target)
 		info, err = os.Lstat(src)
 		if err != nil {
 			return nil, err
@@ -951,6 +940,23 @@ func climbsAboveRoot(absRoot, absPath, target string) bool {
 		}
 	}
 	return false
+}
+
+// cleanSourcePath cleans a path the way Pack needs it - no trailing separator,
+// no dot segments - without changing which directory it names: filepath.Clean
+// resolves ".." as text, which names another directory when the segment in
+// front of it is a symlink ("here/link/../x"), so a path containing ".." is
+// first resolved through the file system.
+func cleanSourcePath(p string) string {
+	for _, seg := range strings.Split(filepath.ToSlash(p), "/") {
+		if seg == ".." {
+			if real, err := filepath.EvalSymlinks(p); err == nil {
+				return real
+			}
+			break
+		}
+	}
+	return filepath.Clean(p)
 }
 
 func pathExists(path string) bool {
